@@ -2,7 +2,7 @@
 from .. import traceprop
 
 ID = "C18"
-GEN = ["Pool.lean"]   # plain-store facts of Pool.Get/Put regenerated from the source (tie 4B)
+GEN = ["Pool.lean", "AtomicValueCalls.lean", "PoolCalls.lean"]   # regenerated from the source on every run (tie 4B)
 SHRINK = False
 RULE = ("native executions (GOMAXPROCS in {1,2,8}) of 2..4 goroutines x 2..6 operations on one AtomicValue[int] (load/store/swap/cas over values 0..3) and on one Pool[*item] "
         "(get/put with the callers' holding discipline, New set or nil), plus high-contention runs (3-4 goroutines x 150-300 swaps/stores/CAS of unique values resp. Get/Put loops, events stamped into per-goroutine "
